@@ -383,31 +383,76 @@ def _on_alarm(signum, frame):
     raise _Timeout()
 
 
-_TAP = {"installed": False, "last": None}
+_TAP = {"installed": False, "last": None, "memo": {}}
+
+
+def _verdict(parsed):
+    from sqlfluff.core import SQLLexError, SQLParseError
+    try:
+        bad = [v for v in parsed.violations if isinstance(v, (SQLLexError, SQLParseError))]
+        notree = not parsed.parsed_variants or parsed.parsed_variants[0].tree is None
+        return "unparsable" if (bad or notree) else "parsed"
+    except Exception:   # noqa
+        return "unknown"
 
 
 def _install_tap():
-    """record sqlfluff's own verdict on every text the analyser hands to the parser (harness-side; /repo untouched)"""
+    """record sqlfluff's own verdict on every text the analyser hands to the parser (harness-side; /repo untouched).
+    The tap also memoises `parse_string` per (dialect, text) for the duration of ONE case, so that the silent and the
+    non-silent run of the same text share the parse (the analyser under test receives the same ParsedString, or the same
+    exception, it would get from a second parse)."""
     if _TAP["installed"]:
         return
     import sqllineage.core.parser.sqlfluff.analyzer as A
-    from sqlfluff.core import SQLLexError, SQLParseError
     base = A.Linter
 
     class TapLinter(base):
-        def parse_string(self, *a, **k):
+        def parse_string(self, in_str, *a, **k):
+            key = (self.config.get("dialect"), in_str) if not a and not k else None
+            memo = _TAP["memo"]
+            if key is not None and key in memo:
+                kind, val, verdict = memo[key]
+                _TAP["last"] = verdict
+                if kind == "exc":
+                    raise val
+                return val
             _TAP["last"] = "raised"
-            parsed = base.parse_string(self, *a, **k)
             try:
-                bad = [v for v in parsed.violations if isinstance(v, (SQLLexError, SQLParseError))]
-                notree = not parsed.parsed_variants or parsed.parsed_variants[0].tree is None
-                _TAP["last"] = "unparsable" if (bad or notree) else "parsed"
-            except Exception:   # noqa
-                _TAP["last"] = "unknown"
+                parsed = base.parse_string(self, in_str, *a, **k)
+            except Exception as e:   # noqa
+                if key is not None:
+                    memo[key] = ("exc", e, "raised")
+                raise
+            _TAP["last"] = _verdict(parsed)
+            if key is not None:
+                memo[key] = ("ok", parsed, _TAP["last"])
             return parsed
 
     A.Linter = TapLinter
     _TAP["installed"] = True
+
+
+def valid_sql(sql, dialects=("ansi",)):
+    """harness-side oracle for the class of D28: does sqlfluff accept every statement of the text under one of `dialects`?"""
+    try:
+        from sqlfluff.core import FluffConfig, Linter
+        from sqllineage.utils.helpers import split
+        stmts = split(sql.strip())
+        for d in dialects:
+            ok = True
+            for st in stmts:
+                try:
+                    if _verdict(Linter(config=FluffConfig(overrides={"dialect": d})).parse_string(st)) != "parsed":
+                        ok = False
+                        break
+                except Exception:   # noqa
+                    ok = False
+                    break
+            if ok:
+                return True
+        return False
+    except Exception:   # noqa
+        return False
 
 
 def touch(lr, want_result=False):
@@ -454,6 +499,9 @@ def run_one(sql, dialect, silent, limit=20.0, want_result=False):
                     out.update(etype=c["etype"], site=c["site"], msg=c["msg"])
                     if c["etype"] == "NetworkXError":
                         out["max_rename_pairs"] = _max_rename_pairs(sql, dialect)
+                    if dialect == "non-validating":
+                        signal.setitimer(signal.ITIMER_REAL, 0)
+                        out["valid_sql"] = valid_sql(sql)
             signal.setitimer(signal.ITIMER_REAL, 0)
             out["warn"] = sorted({f"{x.category.__name__}:{str(x.message)[:60]}" for x in w
                                   if "doesn't support analyzing statement type" in str(x.message)})
@@ -491,10 +539,12 @@ def work(case):
     """pool task: both silent settings for one (text, dialect)"""
     limit = case.get("limit", 20.0)
     t0 = time.time()
+    _TAP["memo"].clear()
     r = {"i": case["i"]}
     for silent in (False, True):
         r["silent" if silent else "loud"] = run_one(case["sql"], case["dialect"], silent, limit, case.get("want_result", False))
     r["t"] = round(time.time() - t0, 3)
+    _TAP["memo"].clear()
     return r
 
 
@@ -527,10 +577,20 @@ def site_of(o):
     return (o["etype"], o["site"])
 
 
-def known_site(chk, o):
-    """finding id when the failing outcome belongs to a listed finding (status finding), else None"""
+def known_site(chk, o, dialect=None):
+    """finding id when the failing outcome belongs to a listed finding (status finding), else None.
+    An entry lists call sites `sites: [[exception type, site], ...]` (optionally `requires: {min_rename_pairs: n}`,
+    `dialects: [...]`), or a class `class_rule: {"dialect": d, "valid_sql": false}` = every escape under dialect d on text
+    that sqlfluff's ansi parser rejects."""
     for e in chk.findings:
         if e.get("status") != "finding":
+            continue
+        rule = e.get("class_rule")
+        if rule is not None:
+            if dialect == rule.get("dialect") and o.get("valid_sql") is rule.get("valid_sql"):
+                return e["id"]
+            continue
+        if e.get("dialects") and dialect is not None and dialect not in e["dialects"]:
             continue
         for et, st in e.get("sites", []):
             if o.get("etype") == et and o.get("site") == st:
@@ -587,17 +647,18 @@ def ddmin(toks, pred, budget=350):
     return cur
 
 
-def minimise(sql, dialect, silent, ref, limit):
+def minimise(chk, sql, dialect, silent, ref, limit):
     toks = tokenize(sql)
     if len(toks) > 600:
         return sql
+
     def pred(ts):
-        return same_failure(run_one(untokenize(ts), dialect, silent, limit), ref)
+        o = run_one(untokenize(ts), dialect, silent, limit)
+        # still the same failure, and still not an instance of a listed finding
+        return same_failure(o, ref) and (failure_of(o) != "escape" or known_site(chk, o, dialect) is None)
     if not pred(toks):
         return sql       # tokenisation round trip changed the behaviour: keep the original text
-    small = ddmin(toks, pred)
-    # drop the space flags where possible (cosmetic) and return
-    return untokenize(small)
+    return untokenize(ddmin(toks, pred))
 
 
 # ----------------------------------------------------------------------------------------------------------- generation
@@ -634,7 +695,7 @@ def gen_fuzz_cases(chk, drv, dialects, corpus):
         for d in ds:
             add(sql, d, "special")
     # 3. mutants of corpus statements and special statements
-    n_mut = 36000 if thorough else 2600
+    n_mut = 34000 if thorough else 2000
     seeds = [(c["sql"], c["dialects"]) for c in small] + [(s, ["ansi"]) for _, s in spec if len(s) < 400]
     seeds_tok = [(tokenize(s), ds) for s, ds in seeds]
     seeds_tok = [(t, ds) for t, ds in seeds_tok if 0 < len(t) <= 400]
@@ -646,13 +707,13 @@ def gen_fuzz_cases(chk, drv, dialects, corpus):
         for _ in range(steps):
             op, toks = mutate(rng, toks, other)
             ops.append(op)
-        if len(toks) > 1200:
-            toks = toks[:1200]
+        if len(toks) > 900:
+            toks = toks[:900]
         own = [d for d in ds if d in dialects] or ["ansi"]
         d = rng.choice(own) if rng.random() < 0.5 else rng.choice(dialects)
         add(untokenize(toks), d, "mut:" + "+".join(ops))
     # 4. generated near-valid SQL (Lean-rendered typed AST) with one token damaged
-    n_gen = 6000 if thorough else 700
+    n_gen = 6000 if thorough else 500
     R = gensql.Rand(rng, max_depth=3 if thorough else 2)
     asts = [R.stmt(rng.choice([1, 2, 2, 3] if thorough else [1, 2])) for _ in range(n_gen // 2)]
     asts += [R.spark_stmt(rng.choice([1, 2])) for _ in range(n_gen // 20)]
@@ -704,6 +765,8 @@ def part_a(chk, drv, dialects, corpus, limit):
     res = run_pool(cases)
     log(f"[C10] part A evaluated in {time.time() - t0:.1f}s")
     dist = collections.Counter()
+    cpu_s = round(sum(r["t"] for r in res), 1)
+    slowest = sorted(((r["t"], c["origin"], c["dialect"], c["sql"][:80]) for c, r in zip(cases, res)), reverse=True)[:5]
     by_origin = collections.Counter()
     by_dialect = collections.Counter()
     timeouts = []
@@ -725,7 +788,7 @@ def part_a(chk, drv, dialects, corpus, limit):
             if f is None:
                 continue
             if f == "escape":
-                fid = known_site(chk, o)
+                fid = known_site(chk, o, c["dialect"])
                 if fid is not None:
                     known[fid] += 1
                     continue
@@ -753,7 +816,7 @@ def part_a(chk, drv, dialects, corpus, limit):
         sql = c["sql"]
         if n_site < 6:
             try:
-                sql = minimise(c["sql"], c["dialect"], silent, o, limit)
+                sql = minimise(chk, c["sql"], c["dialect"], silent, o, limit)
             except Exception as e:   # noqa
                 log("[C10] minimisation failed:", e)
         o2 = run_one(sql, c["dialect"], silent, limit)
@@ -769,6 +832,7 @@ def part_a(chk, drv, dialects, corpus, limit):
                              "failure": list(fk), "origin": c["origin"], "original_sql": c["sql"][:2000],
                              "outcome": {k: v for k, v in o2.items() if k != "result"}})
     return {"cases": len(cases), "distinct_texts": len({c['sql'] for c in cases}), "outcomes": dict(dist),
+            "worker_seconds_total": cpu_s, "slowest_cases": slowest,
             "by_origin": dict(sorted(by_origin.items())), "by_dialect": dict(sorted(by_dialect.items())),
             "timeouts": timeouts[:20], "n_timeouts": len(timeouts), "reproducible_hangs": reproducible_hangs,
             "failure_sites": {"|".join(map(str, k)): len(v) for k, v in failures.items()},
@@ -919,8 +983,10 @@ def run(chk):
             continue
         w = e["witness"]
         o = run_one(w["sql"], w["dialect"], bool(w.get("silent", False)), limit)
-        if failure_of(o) == "escape" and known_site(chk, o) == e["id"]:
+        if failure_of(o) == "escape" and known_site(chk, o, w["dialect"]) == e["id"]:
             chk.known(e["id"])
+        elif e.get("order_sensitive") and failure_of(o) is None:
+            pass        # the outcome of this finding depends on set iteration order (hash seed): not failing is also as recorded
         else:
             chk.stale.append({"kind": "finding", "id": e["id"], "why": "the recorded witness no longer fails as recorded",
                               "witness": w, "now": _brief(o)})
@@ -955,7 +1021,7 @@ def replay(chk, obj):
         f = failure_of(o)
         if f == "escape":
             chk.findings = [e for e in common.load_known_findings() if e.get("property") == "C10"]
-            return 0 if known_site(chk, o) else 1
+            return 0 if known_site(chk, o, r["dialect"]) else 1
         return 1 if f else 0
     if r.get("kind") == "silent":
         d, u, pos = r["dialect"], r["unsupported"], r["position"]
